@@ -150,6 +150,36 @@ def check_generated_help(ctx, res, lib):
                 res.oblige("T|group-list|%s|%s" % (tk, subs), good, violation=None if good else dict(
                     rule='C12.group-list', key="C12|group-list|%s" % tk,
                     msg="derived Help for group %s lists the commands of %s, the declaration's visible members are %s" % (tk, subs, visible)))
+            # command_help of a group: the visible members are asked in declaration order, each at most once, the next one only
+            # when the previous did not know the command; the first member that prints the help ends the
+            # search; UnknownCommand only after every visible member said so; hidden members are never asked
+            out, rule, I = genfsm.explore([crate, lib], fns['command_help'], '-', [], 0, 'help', subhelp_outcomes=True)
+            nch = 0
+            for word, rs in out.items():
+                subs = [(e[1], e[3]) for e in word if e[0] == 'subhelp']
+                if any(o == 'Write' for _, o in subs):
+                    continue          # what happens after a sink error is C14's concern
+                asked = [t for t, _ in subs]
+                last = subs[-1][1] if subs else 'Unknown'
+                why = None
+                if asked != visible[:len(asked)]:
+                    why = "asks %s" % (asked,)
+                elif any(o != 'Unknown' for _, o in subs[:-1]):
+                    why = "asks another member after %s answered %s" % next((t, o) for t, o in subs[:-1] if o != 'Unknown')
+                elif last == 'Unknown' and len(asked) != len(visible):
+                    why = "gives up after asking only %s" % (asked,)
+                elif last == 'Unknown' and not all(r.startswith('Err(UnknownCommand') for r in rs):
+                    why = "returns %s although no visible member knows the command" % sorted(rs)
+                elif last == 'Ok' and not all(r.startswith('Ok(') for r in rs):
+                    why = "returns %s although %s printed the help" % (sorted(rs), asked[-1])
+                nch += 1
+                good = why is None
+                res.oblige("T|group-help|%s|%s" % (tk, subs), good, sample="%s command_help asks %s" % (tk, subs),
+                           violation=None if good else dict(
+                    rule='C12.group-help', key="C12|group-help|%s|%s" % (tk, (why or '').split(' ')[0]),
+                    msg="derived Help::command_help for group %s %s; the declaration's visible members are %s" % (tk, why, visible)))
+            if nch < len(visible) + 1:
+                raise KeyError("group %s: only %d paths of command_help explored" % (tk, nch))
             n += 1
             continue
         cmds = orc['commands']
